@@ -492,4 +492,67 @@ theorem unbind_registered_runs_once (fuel : Nat) (ub : List Beh) (st : St) (k : 
   · obtain ⟨h1, h2, h3, h4⟩ := later_once_in_iteration fuel (afterCancelU ub st k) nohang b1 hal1 r hr ht hl hok2 hnc
     exact ⟨h2, Or.inr h1, h3, h4⟩
 
+/-! ### histories with acting unbind handlers -/
+
+theorem status_applyCancelU_of_not_ok (ub : List Beh) (st : St) (k : Int) (h : st.status ≠ .ok) :
+    (applyCancelU ub st k).status ≠ .ok := by
+  unfold applyCancelU
+  have : st.isOk = false := by
+    cases hh : st.isOk
+    · rfl
+    · exact absurd ((St.isOk_iff _).mp hh) h
+  simp only [this, Bool.not_false, if_true]
+  exact h
+
+theorem status_applyUOp_of_not_ok (st : St) (o : UOp) (h : st.status ≠ .ok) : (applyUOp st o).status ≠ .ok := by
+  cases o with
+  | op o => exact status_applyOp_of_not_ok st o h
+  | cancelU ub k => exact status_applyCancelU_of_not_ok ub st k h
+
+theorem b_applyUOp (st : St) (o : UOp) (b : B [] st) (hok : (applyUOp st o).status = .ok) : B [] (applyUOp st o) := by
+  cases o with
+  | op o => exact b_applyOp st o b hok
+  | cancelU ub k => exact b_applyCancelU ub st k b
+
+theorem runUOps_snoc (cfg : Config) (ops : List UOp) (o : UOp) : runUOps cfg (ops ++ [o]) = applyUOp (runUOps cfg ops) o := by
+  unfold runUOps; rw [List.foldl_append]; rfl
+
+theorem foldl_applyUOp_not_ok : ∀ (l : List UOp) (s : St), s.status ≠ .ok → (l.foldl applyUOp s).status ≠ .ok := by
+  intro l
+  induction l with
+  | nil => intro s hs; exact hs
+  | cons o r ih => intro s hs; exact ih _ (status_applyUOp_of_not_ok s o hs)
+
+/-- Every state a history with acting unbind handlers reaches under the repaired source, if its status is ok, has the
+    bundle (compare `b_runOps`). -/
+theorem b_runUOps (cfg : Config) (hr : Rep cfg) (ops : List UOp) (hok : (runUOps cfg ops).status = .ok) : B [] (runUOps cfg ops) := by
+  unfold runUOps at hok ⊢
+  have : ∀ (l : List UOp) (st : St), B [] st → (l.foldl applyUOp st).status = .ok → B [] (l.foldl applyUOp st) := by
+    intro l
+    induction l with
+    | nil => intro st b _; exact b
+    | cons o rest ih =>
+      intro st b hfin
+      simp only [List.foldl_cons] at hfin ⊢
+      have hmid : (applyUOp st o).status = .ok := by
+        apply Classical.byContradiction
+        intro hne
+        exact foldl_applyUOp_not_ok rest _ hne hfin
+      exact ih _ (b_applyUOp st o b hmid) hfin
+  exact this ops _ (b_build cfg hr) hok
+
+theorem qinv_runUOps (cfg : Config) (ops : List UOp) : QInv (runUOps cfg ops) := by
+  unfold runUOps
+  have : ∀ (l : List UOp) (st : St), QInv st → QInv (l.foldl applyUOp st) := by
+    intro l
+    induction l with
+    | nil => intro st h; exact h
+    | cons o rest ih =>
+      intro st h
+      refine ih _ ?_
+      cases o with
+      | op o => exact (pres_applyOp st o).qinv h
+      | cancelU ub k => exact qinv_applyCancelU ub st k h
+  exact this ops _ (qinv_build cfg)
+
 end Tickit.EvLoop
